@@ -21,12 +21,21 @@ mod core;
 mod mailbox;
 mod sync_impl;
 
+#[cfg(not(all(excsn_fibre_verif, excsn_fibre_verif_shuttle)))]
 use parking_lot::Mutex;
+#[cfg(all(excsn_fibre_verif, excsn_fibre_verif_shuttle))]
+use crate::internal::sync::Mutex;
 use std::collections::HashSet;
 use std::hash::Hash;
+#[cfg(not(all(excsn_fibre_verif, excsn_fibre_verif_shuttle)))]
 use std::sync::{
   atomic::{AtomicBool, Ordering},
   Arc,
+};
+#[cfg(all(excsn_fibre_verif, excsn_fibre_verif_shuttle))]
+use {
+  crate::internal::sync::{AtomicBool, Ordering},
+  std::sync::Arc,
 };
 
 // --- Public Re-exports ---
